@@ -333,6 +333,39 @@ pub fn run(args: &Args) -> i32 {
             tl
         })
         .reduce(Tally::default, Tally::merge);
+    // real zones of the vendored corpus (decoded by the independent reader): every transition -1/0/+1, leap records, rule
+    // transitions of the years after the table, range limits
+    let (zones, skipped) = crate::corpus::model_zones(&cyc);
+    let ct = zones
+        .par_iter()
+        .map(|(path, z)| {
+            let mut tl = Tally::default();
+            let mut probes: Vec<i64> = vec![i64::MIN, 0, i64::MAX];
+            for &(t, _) in &z.trans {
+                for d in -1i64..=1 {
+                    // transition times are on the count scale; probe the corresponding UTC instants
+                    if let Some(u) = z.to_utc(t) {
+                        probes.push(u.saturating_add(d));
+                    }
+                    probes.push(t.saturating_add(d));
+                }
+            }
+            for i in 0..z.leaps.len() {
+                for d in -2i64..=2 {
+                    probes.push(z.leap_utc(i).saturating_add(d));
+                }
+            }
+            probes.extend(rule_probes(&cyc, z));
+            probes.sort();
+            probes.dedup();
+            if let Err(m) = guard(|| check_zone(&cyc, z, &probes, &rec, "corpus", &mut tl)) {
+                rec.violation("corpus", json!({"kind":"corpus","path":path}), json!("no panic"), json!(m));
+            }
+            tl
+        })
+        .reduce(Tally::default, Tally::merge);
+    rec.sub("corpus", json!({"distinct_corpus_zones": zones.len(), "files_not_expressible_in_the_model": skipped, "zones_checked": ct.zones, "lookups": ct.evals}));
+    let total = total.merge(ct);
     rec.sub("table", json!({"shapes": work.len(), "zones": total.zones, "zones_refused_as_model_predicts": total.rejected, "lookups": total.evals, "max_table_len": max_n, "all_index_sequences_up_to_len": all_seq_n}));
     rec.add(total.evals, total.nontrivial);
     rec.digest("table", total.digest);
